@@ -1,5 +1,7 @@
 #!/bin/bash
 # usage: confirm_mutant.sh <dir with patch.diff and demo.rs> <name e.g. C01_1>
+# env: DEMO_FEATURES="--features experimental_cursor" for demonstrations of feature-gated code;
+# a cargo_toml_dev_dependency.diff in the directory is applied for the demonstration only (C19: redb 3.0.0)
 # Confirms in a scratch worktree (outside /repo and /verif) that a seeded change (a) leaves the
 # existing suite green, (b) makes its demonstration fail, (c) the demonstration passes without it.
 d="$1"; name="$2"
@@ -13,8 +15,9 @@ if ! git apply --check "$d/patch.diff" 2>/dev/null; then echo "$name: PATCH-DOES
 git apply "$d/patch.diff"
 suite=$(cargo nextest run --workspace --no-fail-fast --test-threads 8 --offline 2>&1 | grep -E "tests run:" | tail -1)
 cp "$d/demo.rs" tests/seeded_$name.rs
-with=$(timeout 900 cargo test --offline -p redb@4.2.0 --test seeded_$name 2>&1 | grep -E "^test result|error(\[|:)" | tail -2 | tr '\n' ' ')
+if [ -f "$d/cargo_toml_dev_dependency.diff" ]; then git apply "$d/cargo_toml_dev_dependency.diff" || echo "$name: dev-dependency diff does not apply"; fi
+with=$(timeout 1800 cargo test --offline -p redb@4.2.0 $DEMO_FEATURES --test seeded_$name 2>&1 | grep -E "^test result|error(\[|:)" | tail -2 | tr '\n' ' ')
 git checkout -q -- src
-without=$(timeout 900 cargo test --offline -p redb@4.2.0 --test seeded_$name 2>&1 | grep -E "^test result|error(\[|:)" | tail -2 | tr '\n' ' ')
-rm -f tests/seeded_$name.rs
+without=$(timeout 1800 cargo test --offline -p redb@4.2.0 $DEMO_FEATURES --test seeded_$name 2>&1 | grep -E "^test result|error(\[|:)" | tail -2 | tr '\n' ' ')
+rm -f tests/seeded_$name.rs; git checkout -q -- Cargo.toml Cargo.lock 2>/dev/null
 echo "$name | suite-with-change: $suite | demo-with-change: $with | demo-without: $without"
